@@ -303,3 +303,88 @@ func (cp *convpair) checkFormatArg(fname string, arg ast.Expr) {
 		c.bad(cp.rule, cp.key(fname+"/format-end"), arg.Pos(), "an end coordinate is converted when written: a 0-based exclusive end equals the 1-based inclusive end")
 	}
 }
+
+// ruleZeroColour: the BED reader turns the single field "0" into the zero
+// colour color.RGBA{} and "r,g,b" into {r,g,b,0xff}. The writer may spell a
+// colour "0" only if it equals that zero colour in all four components; a
+// test that ignores alpha writes opaque black as "0", which reads back as
+// a different colour.
+func ruleZeroColour(c *Ctx, rule string) {
+	fd, p := c.decl("io/featio/bed", "format")
+	n := 0
+	ast.Inspect(fd.Body, func(x ast.Node) bool {
+		ifs, ok := x.(*ast.IfStmt)
+		if !ok {
+			return true
+		}
+		// does the then-branch write the single byte '0'?
+		writesZero := false
+		ast.Inspect(ifs.Body, func(y ast.Node) bool {
+			if cl, ok := y.(*ast.CompositeLit); ok && len(cl.Elts) == 1 {
+				if k, ok := constInt(p, cl.Elts[0]); ok && k == '0' {
+					writesZero = true
+				}
+			}
+			if s, ok := constStr(p, asExpr(y)); ok && s == "0" {
+				writesZero = true
+			}
+			return true
+		})
+		if !writesZero {
+			return true
+		}
+		// only the innermost test that selects the "0" spelling
+		nested := false
+		ast.Inspect(ifs.Body, func(y ast.Node) bool {
+			if inner, ok := y.(*ast.IfStmt); ok {
+				ast.Inspect(inner.Body, func(z ast.Node) bool {
+					if cl, ok := z.(*ast.CompositeLit); ok && len(cl.Elts) == 1 {
+						if k, ok := constInt(p, cl.Elts[0]); ok && k == '0' {
+							nested = true
+						}
+					}
+					if s, ok := constStr(p, asExpr(z)); ok && s == "0" {
+						nested = true
+					}
+					return true
+				})
+			}
+			return true
+		})
+		if nested {
+			return true
+		}
+		n++
+		key := fmt.Sprintf("bed.format/zero-colour-test#%d", n)
+		whole, alpha := false, false
+		ast.Inspect(ifs.Cond, func(y ast.Node) bool {
+			switch e := y.(type) {
+			case *ast.CompositeLit:
+				if tv, ok := p.TypesInfo.Types[e]; ok && isNamed(tv.Type, "image/color", "RGBA") && len(e.Elts) == 0 {
+					whole = true
+				}
+			case *ast.SelectorExpr:
+				if s := p.TypesInfo.Selections[e]; s != nil && s.Kind() == types.FieldVal && e.Sel.Name == "A" {
+					alpha = true
+				}
+			}
+			return true
+		})
+		if whole || alpha {
+			c.ok(rule, key, ifs.Pos(), "the \"0\" spelling is chosen by a comparison that includes the alpha component")
+		} else {
+			c.bad(rule, key, ifs.Pos(), "the writer spells a colour \"0\" under a test that ignores its alpha component: opaque black {0,0,0,255} — what the reader produces for \"0,0,0\" — is written as \"0\" and reads back as the zero colour")
+		}
+		return true
+	})
+	if n == 0 {
+		c.und(rule, "bed.format/zero-colour-test", fd.Pos(), "no branch writing the \"0\" colour found")
+	}
+}
+
+func asExpr(n ast.Node) ast.Expr {
+	if e, ok := n.(ast.Expr); ok {
+		return e
+	}
+	return nil
+}
